@@ -173,7 +173,7 @@ theorem admit_spec {s : State} (h : Inv s) (cfg : Cfg) (k c : Nat) :
     Inv (admit s cfg k c).1
     ∧ AdmitOk (tracked s) (tracked (admit s cfg k c).1) k (admit s cfg k c).2.victims
     ∧ (k ∉ (admit s cfg k c).2.victims → (k, c) ∈ tracked (admit s cfg k c).1) := by
-  unfold admit
+  unfold TinyLfu.admit
   dsimp only
   split
   · next hm =>
